@@ -25,7 +25,7 @@ SECRET_NAMES = ['secret', 'secret_key', 'my_secret', 'db_secret_pw', 'apisecretk
                 'n' * 66 + '_secret', 'very_long_' * 9 + 'secret_at_the_end', 'secret' + '_padding' * 12]
 PLAIN_NAMES = ['token_ttl', 'db_url', 'debug', 'name', 'greeting', 'limits', 'weird <i>name</i>', 'page_title', '_meta_start_time',
                'script_root_other', 'resources', 'exc_content', 'SECRET_UPPER_IS_NOT_secretive'.replace('secret', 'zzz')]
-VALUE_KINDS = ['str', 'bytes', 'number', 'list', 'dict', 'object', 'nested', 'longstr', 'tuple0', 'tuple1', 'tuple2', 'tuple2', 'namedtuple',
+VALUE_KINDS = ['float1', 'true', 'int1', 'tuple-bool', 'tuple-int', 'str', 'bytes', 'number', 'list', 'dict', 'object', 'nested', 'longstr', 'tuple0', 'tuple1', 'tuple2', 'tuple2', 'namedtuple',
                'percent']
 COOKIE_KEY = b'C00KIE-SIGNING-KEY-7781'
 ROUTE_KINDS = ['function', 'lambda', 'method', 'callable', 'static', 'classmethod', 'decorated']
@@ -126,6 +126,8 @@ def make_value(kind, marker):
         return BadReprSurrogate()
     if kind == 'badrepr-badstr':
         return BadReprBadStr()
+    if kind in EXACT:
+        return EXACT[kind]
     if kind == 'tuple0':
         return ()
     if kind == 'tuple1':
@@ -138,6 +140,10 @@ def make_value(kind, marker):
     if kind == 'percent':
         return '100%s %(x)d ' + marker
     raise InvalidPlan('unknown value kind')
+
+
+# values that compare (and hash) equal although they are different things: each must be shown as ITSELF
+EXACT = {'float1': 1.0, 'true': True, 'int1': 1, 'tuple-bool': (False, True), 'tuple-int': (0, 1)}
 
 
 def marker_forms(kind, marker):
@@ -168,7 +174,7 @@ class C18(Check):
     level_text = ('Single host-call faults are enumerated completely (every call site x every documented exception and unusual '
                   'value, both views) on a fixed host; host applications and multi-fault plans are sampled.')
     level_note = 'Trusted: the catalogue of what each host call can raise/return (sim/core/hoststub.py).'
-    required_probes = ('tuple-valued-resource', 'secret-resource-with-failing-repr', 'host-context-names-clash-with-meta-working-names', 'sibling-section-cannot-be-computed', 'host-shares-middleware-type-with-meta', 'secret-redacted-html', 'secret-redacted-json', 'fault-fired-page-200', 'all-calls-failing', 'depth-2',
+    required_probes = ('equal-but-different-values-listed', 'cookie-key-given-as-text', 'tuple-valued-resource', 'secret-resource-with-failing-repr', 'host-context-names-clash-with-meta-working-names', 'sibling-section-cannot-be-computed', 'host-shares-middleware-type-with-meta', 'secret-redacted-html', 'secret-redacted-json', 'fault-fired-page-200', 'all-calls-failing', 'depth-2',
                        'plain-visible', 'bad-repr-section-inline', 'cookie-mw-present')
 
     # ---- generation --------------------------------------------------------
@@ -189,7 +195,7 @@ class C18(Check):
         return {'resources': resources(5), 'inner_resources': resources(3),
                 'routes': [rng.choice(ROUTE_KINDS) for _ in range(rng.randint(0, 4))],
                 'renders': rng.choice(['none', 'basic', 'callable']),
-                'cookie': rng.random() < 0.5, 'extra_mws': rng.random() < 0.4,
+                'cookie': rng.choice([False, False, True, 'str']), 'extra_mws': rng.random() < 0.4,
                 'host_mws': rng.sample(sorted(HOST_MWS), rng.randint(0, 3)),
                 'prefix': rng.choice(['/_meta/', '/m', '/deep/er/meta/', '/']), 'depth': rng.choice([1, 1, 2]),
                 'static': rng.random() < 0.3, 'embedded': rng.random() < 0.4}
@@ -266,7 +272,8 @@ class C18(Check):
             routes.append(('/assets/', StaticApplication(cmeta._ASSET_PATH)))
         mws = []
         if cfg.get('cookie'):
-            mws.append(SignedCookieMiddleware(secret_key=COOKIE_KEY))
+            # the key as bytes or as text: both are accepted
+            mws.append(SignedCookieMiddleware(secret_key=COOKIE_KEY.decode() if cfg.get('cookie') == 'str' else COOKIE_KEY))
         if cfg.get('extra_mws'):
             mws += [GzipMiddleware(), StatsMiddleware()]
         for name in cfg.get('host_mws', []):
@@ -304,6 +311,8 @@ class C18(Check):
                 return res
             if cfg.get('cookie'):
                 res.probe('cookie-mw-present')
+            if cfg.get('cookie') == 'str':
+                res.probe('cookie-key-given-as-text')
             if set(cfg.get('host_mws', [])) & set(['simplectx-sections', 'ctxproc-sections']):
                 res.probe('host-context-names-clash-with-meta-working-names')
             if set(cfg.get('host_mws', [])) & set(['simplectx', 'simplectx-named']):
@@ -392,6 +401,11 @@ class C18(Check):
                     if '[REDACTED]' not in body:
                         return ('secret-not-marked-redacted', 'no redaction marker on the page')
                     res.probe('secret-redacted-html')
+            elif kind in EXACT:
+                want = repr(EXACT[kind])
+                if table is not None and table.get(name) != want:
+                    return ('plain-resource-shown-as-another-value', 'resource %r = %s is listed as %r' % (name, want, table.get(name)))
+                res.probe('equal-but-different-values-listed')
             elif kind == 'tuple0':
                 if table is not None and table.get(name) != '()':
                     return ('plain-resource-hidden', 'resource %r (an empty tuple) shows %r' % (name, table.get(name)))
